@@ -167,6 +167,7 @@ def arrivalAmount (hasAmount : Bool) (a : Nat) : Option Nat :=
 def arAmount (tok : String) : Option Nat :=
   match (tok.drop 3).toString.splitOn ":" with
   | [_, a, _, _, _, _] => a.toNat?
+  | [_, a, _, _, _, _, _] => a.toNat?
   | _ => none
 
 /-- plugin-internal actions enabled in `s` -/
@@ -203,9 +204,16 @@ def tokenActs (hasAmount : Bool) (x : Cand) (tok : String) : Option (List SAct) 
       let r ← parseInt r
       let t ← parseOptNat t
       pure [.arrive ⟨b, a, hasAmount⟩ h e r (t.getD h)]
+    | [b, a, h, e, r, t, f] => do     -- 7th field: the onion's forward amount = the declared total when none is given
+      let b ← b.toNat?; let a ← a.toNat?; let h ← h.toNat?; let e ← e.toNat?
+      let r ← parseInt r
+      let t ← parseOptNat t
+      let f ← f.toNat?
+      pure [.arrive ⟨b, a, hasAmount⟩ h e r (t.getD f)]
     | _ => none
   else if tok.startsWith "tm" then (tok.drop 2).toString.toNat?.map fun d => [.tickMono d]
-  else if tok.startsWith "tw" then (tok.drop 2).toString.toNat?.map fun d => [.tickWall d]
+  else if tok.startsWith "tw" then (tok.drop 2).toString.toNat?.map fun d => [.tickWall (d : Int)]
+  else if tok.startsWith "tb" then (tok.drop 2).toString.toNat?.map fun d => [.tickWall (-(d : Int))]     -- clock stepped back
   else if tok.startsWith "bl" then (tok.drop 2).toString.toNat?.map fun d => [.block d]
   else if tok = "cr" then some [.crash]
   else if tok.startsWith "pe:" then (parsePayEnd (tok.drop 3).toString).map fun r => [.payEnd r]
@@ -278,7 +286,7 @@ def evalSystemFull (ws : List String) (observed : String) : Option (String × Li
       match splitBar observed with
       | [] => none
       | ob0 :: obs =>
-        let x0 : Cand := { s := { SState.init with height := 1000 }, ord := [], outs := [] }
+        let x0 : Cand := { s := { SState.init with height := 1000, wall := 1000000 }, ord := [], outs := [] }
         let first := showObsS c [] []
         if first != ob0 then some (first, [])
         else some (runSys c SVariant.current (open_ == 0) [x0] acts obs 1 first [])
